@@ -208,6 +208,10 @@ namespace avel {
     [[nodiscard]]
     AVEL_FINL std::uint8_t bit_ceil(std::uint8_t x) {
         #if defined(AVEL_LZCNT)
+        if (x == 0) {
+            return 1;
+        }
+
         auto sh = (32 - _lzcnt_u32(x - 1));
         auto result = 1 << sh;
         return result;
